@@ -42,6 +42,10 @@ class Module:
         self.relpath = relpath
         self.src = src
         self.tree = ast.parse(src, filename=path)
+        # alpha-normalise renamed locals back to the reference names (sa/localnames.py); positions are untouched
+        from .localnames import normalise_tree
+
+        self.renamed_locals = normalise_tree(self.tree, relpath.replace(os.sep, "/"))
         self.digest = "sha256:" + hashlib.sha256(src.encode("utf-8", "surrogateescape")).hexdigest()
         self.is_package = os.path.basename(path) == "__init__.py"
         self.symbols: Dict[str, Sym] = {}
